@@ -196,7 +196,9 @@ def job_flow(job, res):
         oshape = (16,) if nout == 1 and len(sshape) == 1 and len(kshape) == 1 else (nout, 16)
         b_st, b_ky = S.terms(st), S.terms(ky)
         stops = [(r, s) for r in range(nr + 1) for s in range(4)] + [(None, None)]
+        history = []
         for (r, s) in stops:
+            history.append([r, s])
             if r is None:
                 out = fn(st, ky)
                 pos = len(states[0]) - 1
@@ -221,10 +223,10 @@ def job_flow(job, res):
                     res['samples'].append(dict(obligation=desc, verdict='unsat'))
             elif verdict == 'sat':
                 res['failures'].append(dict(kind='flow', what=desc, mode=mode, klen=klen, at_round=r, after_step=s, dtype=job['dtype'],
-                                            state=model_bytes(m, st), keyv=model_bytes(m, ky), key=dict(kind='flow', mode=mode, shape=job['shape'])))
+                                            state=model_bytes(m, st), keyv=model_bytes(m, ky), history=list(history), key=dict(kind='flow', mode=mode, shape=job['shape'])))
                 break      # later stop points share the difference cone
             else:
-                m = seeded_refute(z3.Not(any_differs(got, exp)), [c for c, _ in CTX.symbols.values()], _table_axioms() + list(ex.pc))
+                m = seeded_refute(z3.Not(any_differs(got, exp)), [c for c, _ in CTX.symbols.values()], _table_axioms(), assumptions=list(ex.pc))
                 if m is not None:
                     res['failures'].append(dict(kind='flow', what=desc, mode=mode, klen=klen, at_round=r, after_step=s, dtype=job['dtype'],
                                                 state=model_bytes(m, st), keyv=model_bytes(m, ky), key=dict(kind='flow', mode=mode, shape=job['shape']),
@@ -409,6 +411,8 @@ def replay(w):
         nr = F.NR[klen]
         fn = getattr(aes, mode)
         try:
+            for (hr, hs) in (w.get('history') or [])[:-1]:
+                fn(a, k) if hr is None else fn(a, k, at_round=hr, after_step=hs)
             got = fn(a, k) if r is None else fn(a, k, at_round=r, after_step=s)
         except Exception as ex:
             return dict(reproduced=True, detail=f'aes.{mode} raised {type(ex).__name__}: {ex} on valid input {a.tolist()} {k.tolist()}')
